@@ -567,4 +567,65 @@ def getPipelinePathNR (fs : Fs) (sub : List String) (name : String) (parent : Op
   | .ok p => .ok (fs.realpath p)
   | .error e => .error e
 
+/-! ### what sits at a candidate path: file kinds
+
+`find_pipeline` asks `path.is_file()` of every candidate `dir/<name>.yaml`, the absolute branch asks
+`abs_candidate.is_file()`: true iff the path names a REGULAR FILE once symlinks are followed. A directory
+that happens to be called `<name>.yaml`, a symlink to a directory, a dangling symlink, a fifo: all of them
+are passed over exactly like an absent entry - the search carries on to the next location, and when no
+location holds a regular file the outcome is the not-found error listing the places. (`Path.exists()` -
+NOT what the look-up asks - would say yes to a directory / a link to one / a fifo.) -/
+
+/-- what the entry `<dir>/<name>.yaml` is -/
+inductive FKind where
+  | absent
+  | file
+  | dir
+  /-- a symlink (chain) ending at a regular file -/
+  | linkFile
+  /-- a symlink (chain) ending at a directory -/
+  | linkDir
+  /-- a symlink whose target does not exist (or a link loop) -/
+  | dangling
+  | fifo
+  deriving DecidableEq, Repr
+
+/-- `Path.is_file()`: a regular file, following symlinks -/
+def FKind.isFile : FKind → Bool
+  | .file => true
+  | .linkFile => true
+  | _ => false
+
+/-- `Path.exists()` - NOT what the look-up asks; here to say what the difference is -/
+def FKind.pathExists : FKind → Bool
+  | .absent => false
+  | .dangling => false
+  | _ => true
+
+/-- the file system whose "is a file" answers come from a kind map -/
+def Fs.withKinds (fs : Fs) (kind : Path → FKind) : Fs := { fs with isFile := fun p => (kind p).isFile }
+
+/-- the loop of `find_pipeline` over a kind map -/
+def findPipelineK (kind : Path → FKind) (file : List String) : List Path → Option Path
+  | [] => none
+  | d :: ds => if (kind (d ++ file)).isFile then some (d ++ file) else findPipelineK kind file ds
+
+/-- `get_pipeline_path` over a kind map (location ↦ kind of the entry there), with `cwd_pipelines_dir = cwd/sub`.
+    `fs` supplies `cwd`, `builtin` and which directories exist (for the parent); its `isFile` is not read. -/
+def getPipelinePathK (fs : Fs) (kind : Path → FKind) (sub : List String) (name : Name) (parent : Option Path) :
+    Except String Path :=
+  match name with
+  | .abs parts =>
+    if (kind (fileParts parts)).isFile then .ok (fileParts parts)
+    else .error (pathStr (fileParts parts) ++ " does not exist.")
+  | .rel parts =>
+    match findPipelineK kind (fileParts parts) (searchDirsS fs sub parent) with
+    | some p => .ok p
+    | none => .error (notFoundMsg ("/".intercalate (fileParts parts)) (searchDirsS fs sub parent))
+
+/-- NOT pypyr: the loop with `path.exists()` as the hit test -/
+def findPipelineExists (kind : Path → FKind) (file : List String) : List Path → Option Path
+  | [] => none
+  | d :: ds => if (kind (d ++ file)).pathExists then some (d ++ file) else findPipelineExists kind file ds
+
 end Pypyr.Resolve
